@@ -334,12 +334,30 @@ def outcome(thunk):
 
 # ---- the reference -------------------------------------------------------------------------------------------
 
+def never_pulled(post):
+    """the post-processing is lazy: behind a Slice with stop 0 nothing is ever pulled from the accumulator's compute()
+    (unless a second accumulator, which run() drives eagerly, stands in between)"""
+    for s in post:
+        if s[0] == "acc":
+            return False
+        if s[0] == "slice" and slice(*s[1]).stop == 0:
+            return True
+    return False
+
+
 def expected(chain, flow):
     pre, acc, post = chain
 
     def thunk():
         xs = ref_seq(pre, copy.deepcopy(flow))
-        return ref_seq(post, direct_acc(acc, xs))
+        try:
+            ys = direct_acc(acc, xs)
+        except lena.core.LenaZeroDivisionError:
+            # Mean of nothing raises when its result is pulled
+            if not never_pulled(post):
+                raise
+            ys = []
+        return ref_seq(post, ys)
     return outcome(thunk)
 
 
@@ -482,14 +500,17 @@ def clause(exp, got):
 
 
 class Shrinker(object):
-    """greedy reduction of a failing (driver, chain, flow) so that one defect keeps one fid"""
+    """greedy reduction of a failing (driver, chain, flow) so that one defect keeps one fid.  At most `budget`
+    reductions are made per run; when the budget is used up (only on a badly broken tree) further failures of a kind
+    not seen before are collected under the coarse fid <driver>/<clause>/unshrunk."""
 
     def __init__(self, budget):
         self.budget = budget
+        self.cache = {}
 
     def shrink(self, d, chain, flow):
         if self.budget <= 0:
-            return chain, flow
+            return None
         self.budget -= 1
         pre, acc, post = chain
         changed = True
@@ -508,6 +529,14 @@ class Shrinker(object):
                 cands.append(((pre, acc, post[:i] + post[i + 1:]), flow))
             if acc != ["store", False]:
                 cands.append(((pre, ["store", False], post), flow))
+            if acc[0] == "splitacc":
+                brs = acc[1]
+                for i in range(len(brs)):
+                    if len(brs) > 1:
+                        cands.append(((pre, ["splitacc", brs[:i] + brs[i + 1:]], post), flow))
+                    for j in range(len(brs[i][0])):
+                        b = [brs[i][0][:j] + brs[i][0][j + 1:], brs[i][1]]
+                        cands.append(((pre, ["splitacc", brs[:i] + [b] + brs[i + 1:]], post), flow))
             if flow:
                 cands.append(((pre, acc, post), flow[:-1]))
                 cands.append(((pre, acc, post), flow[1:]))
@@ -528,6 +557,8 @@ def chain_fid(chain):
     p = "+".join(sorted(set(kind(s) for s in pre))) or "-"
     q = "+".join(sorted(set(kind(s) for s in post))) or "-"
     a = "any" if acc == ["store", False] else acc[0]
+    if acc[0] == "splitacc":
+        a += "[%s]" % "+".join(sorted(set(kind(x) for b in acc[1] for x in b[0])))
     return "pre=%s/acc=%s/post=%s" % (p, a, q)
 
 
@@ -537,12 +568,21 @@ def check_case(R, sh, chain, flow, drivers):
     for d in drivers:
         got = run_driver(d, chain, flow)
         if got != exp:
-            mchain, mflow = sh.shrink(d, chain, flow)
-            mexp = expected(mchain, mflow)
-            mgot = run_driver(d, mchain, mflow)
-            if mgot == mexp:        # not reproducible after shrinking (should not happen): keep the original
-                mchain, mflow, mexp, mgot = chain, flow, exp, got
-            fid = "%s/%s/%s" % (driver_label(d), clause(mexp, mgot), chain_fid(mchain))
+            raw = (driver_label(d), clause(exp, got), chain_fid(chain))
+            fid = sh.cache.get(raw)
+            mchain, mflow, mexp, mgot = chain, flow, exp, got
+            if fid is None:
+                small = sh.shrink(d, chain, flow)
+                if small is None:
+                    fid = "%s/%s/unshrunk" % raw[:2]
+                else:
+                    mchain, mflow = small
+                    mexp = expected(mchain, mflow)
+                    mgot = run_driver(d, mchain, mflow)
+                    if mgot == mexp:    # not reproducible after shrinking (should not happen): keep the original
+                        mchain, mflow, mexp, mgot = chain, flow, exp, got
+                    fid = "%s/%s/%s" % (driver_label(d), clause(mexp, mgot), chain_fid(mchain))
+                    sh.cache[raw] = fid
             R.fail(fid,
                    "driver %r on chain pre=%r acc=%r post=%r, flow %r: got %s, the property's reference gives %s"
                    % (d, mchain[0], mchain[1], mchain[2], mflow, show(mgot), show(mexp)),
@@ -1093,7 +1133,7 @@ def replay_real(name, adapter):
 PRE_SMALL = [
     ["call", "inc"], ["call", "dbl"],
     ["var", "v", "dbl"],
-    ["filter", "even"], ["filter", "none"], ["filter", "truthy"],
+    ["filter", "even"], ["filter", "none"], ["filter", "truthy"], ["filter", "ctx"],
     ["slice", [2]], ["slice", [1, 3]], ["slice", [0, 5, 2]], ["slice", [0]], ["slice", [1, None, 3]],
     ["runif", "gt1", [["call", "dbl"]]],
     ["runif", "even", [["dup"]]],
@@ -1230,7 +1270,7 @@ def rand_flow(rng, maxlen):
 
 def body(R):
     rng = R.rng
-    sh = Shrinker(60)
+    sh = Shrinker(150)
     thorough = R.thorough
 
     # ---- scope 1: exhaustive small chains, all drivers, all bufsizes -------------------------------------------
@@ -1276,8 +1316,23 @@ def body(R):
                     R.case(True)
                     n_exec += check_case(R, sh, chain, flow, drivers)
 
+    # ---- scope 2b (thorough): exhaustive triples of pre elements ------------------------------------------------------
+    if thorough:
+        flows2b = [("plain", 0), ("plain", 2), ("plain", 6), ("mixed", 5)]
+        R.scope("drivers: ordered triples of pre elements",
+                "all ordered triples from %d pre kinds x accumulators {StoreFilled, Sum} x no post; flows range(L) for L "
+                "in (0, 2, 6) and one mixed flow of 5; Split bufsize in {1..L+1, 1000, None}" % len(PRE_SMALL), True)
+        for pres in itertools.product(PRE_SMALL, repeat=3):
+            for acc in (["store", False], ["sum"]):
+                chain = (list(pres), acc, [])
+                for fk, L in flows2b:
+                    flow = make_flow(fk, L)
+                    drivers = [["run"], ["fcs"], ["fillseq", 2]] + split_drivers(L)
+                    R.case(True)
+                    n_exec += check_case(R, sh, chain, flow, drivers)
+
     # ---- scope 3: random chains ------------------------------------------------------------------------------------
-    n3 = 12000 if thorough else 1300
+    n3 = 40000 if thorough else 2500
     R.scope("drivers: random chains, companions in the Split",
             "%d random chains: 0..4 pre elements (random Slice(start<=5, stop<=9, step<=4), Filter over 8 predicates, "
             "RunIf with 0..3 inner elements, Variable, callables, Call(el, call=name)), any of %d accumulator kinds "
